@@ -95,6 +95,8 @@ class C01(SMSpec):
         if tier == "quick":
             return ([mkjob(s, 3, 2) for s in ("S1", "S3", "S4", "S5")] + [mkjob("S4", 2, 1, ext_per_iter=2, variant=3), mkjob("S3", 2, 1, ext_per_iter=2, variant=3)]
                     + [mkjob("S1", 2, 2, double_nsn=True, variant=4), mkjob("S3", 2, 1, double_nsn=True, variant=5)]
+                    # a state run through next_state_now() that calls next_state_now() itself
+                    + [mkjob("S1", 2, 2, nsn_depth=2, variant=2), mkjob("S3", 1, 2, nsn_depth=2, variant=1)]
                     + [self.stepjob(s) for s in ("S3", "S4")]
                     + [mkjob("S11", 5, 0, ext=False, variant=2), mkjob("S8", 4, 0, ext=False, variant=1)]
                     + [mkjob("S4", 3, 1, variant=5, default_acts=True), mkjob("S8", 3, 1, ext=False, variant=2, default_acts=True)]
@@ -174,12 +176,15 @@ class C02(SMSpec):
                     + [mkjob("S6", 5, 0, ext=False, rewrite=True, variant=1), mkjob("S2", 4, 0, ext=False, rewrite=True, variant=1)]
                     # decorator-default durations (nothing written to the duration topics), incl. a redefined timed state
                     + [mkjob("S9", 6, 0, ext=False, sym_durations=False), mkjob("S7", 5, 0, ext=False, sym_durations=False, variant=2),
-                       mkjob("S10", 5, 0, ext=False, sym_durations=False, variant=3), mkjob("S11", 6, 0, ext=False, variant=4)])
+                       mkjob("S10", 5, 0, ext=False, sym_durations=False, variant=3), mkjob("S11", 6, 0, ext=False, variant=4)]
+                    # a second live machine of the same class, engaged at other times: clocks are per machine
+                    + [self.twinjob("S2", 4, 0), self.twinjob("S6", 3, 0)])
         return ([mkjob(s, 8, 1, ext=False, variant=1) for s in ("S2", "S6", "S7")]
                 + [mkjob("S6", 7, 0, ext=False, variant=2, rewrite=True), mkjob("S2", 5, 0, ext=False, variant=2, rewrite=True),
                    mkjob("S7", 4, 0, ext=False, variant=2, rewrite=True), mkjob("S1", 7, 1, ext=False, variant=1), mkjob("S3", 6, 1, ext=False, variant=5),
                    mkjob("S9", 8, 0, ext=False, sym_durations=False), mkjob("S10", 7, 0, ext=False, sym_durations=False, variant=3),
-                   mkjob("S11", 7, 1, ext=False, variant=4), mkjob("S8", 6, 1, ext=False, variant=1)])
+                   mkjob("S11", 7, 1, ext=False, variant=4), mkjob("S8", 6, 1, ext=False, variant=1),
+                   self.twinjob("S2", 5, 0), self.twinjob("S6", 4, 0), self.twinjob("S7", 4, 1)])
 
     def reach_required(self, tier):
         return ["engagement-start", "timed-pair", "timed-stays", "timed-expired", "restart", "self-loop-note"][:5]
@@ -217,8 +222,8 @@ class C13(SMSpec):
         "histories longer than K calls",
     ]
 
-    def mk(self, shape, K, budget, variant=0, nsn_depth=1, done_next=False, sym_durations=True):
-        j = mkjob(shape, K, budget, variant=variant, nsn_depth=nsn_depth, sym_durations=sym_durations)
+    def mk(self, shape, K, budget, variant=0, nsn_depth=1, done_next=False, sym_durations=True, double_nsn=False):
+        j = mkjob(shape, K, budget, variant=variant, nsn_depth=nsn_depth, sym_durations=sym_durations, double_nsn=double_nsn)
         j["asm"] = True
         j["cfg"]["asm"] = True
         if done_next:
@@ -230,10 +235,12 @@ class C13(SMSpec):
         if tier == "quick":
             return [self.mk("S1", 6, 2), self.mk("S2", 6, 1), self.mk("S3", 5, 2), self.mk("S7", 6, 0), self.mk("S8", 5, 1),
                     self.mk("S1", 6, 1, variant=2, done_next=True), self.mk("S10", 6, 0, variant=1, sym_durations=False),
-                    self.mk("S9", 6, 0, variant=2, sym_durations=False)]
+                    self.mk("S9", 6, 0, variant=2, sym_durations=False),
+                    # two next_state_now() calls from one state invocation / a nested chain of them
+                    self.mk("S1", 4, 2, variant=3, double_nsn=True), self.mk("S3", 3, 2, variant=1, nsn_depth=2)]
         return [self.mk("S1", 8, 2, 1), self.mk("S2", 8, 2, 2), self.mk("S3", 6, 3, 3, 2), self.mk("S7", 9, 1, 4),
                 self.mk("S8", 7, 2, 5), self.mk("S4", 6, 2, 1), self.mk("S6", 8, 1, 2), self.mk("S1", 7, 2, 3, done_next=True),
-                self.mk("S3", 6, 2, 4, done_next=True)]
+                self.mk("S3", 6, 2, 4, done_next=True), self.mk("S1", 5, 2, variant=3, double_nsn=True), self.mk("S4", 4, 3, variant=2, nsn_depth=2, double_nsn=True)]
 
     def reach_required(self, tier):
         return ["disabled", "iteration-after-finish", "iteration-while-disabled", "first-iteration-after-enable",
